@@ -1,8 +1,104 @@
-(* C13 -- lists and maps are shared by reference and their operations match their model.
-   Pinned statements only; proofs live in Containers/Proofs.v.  (under construction) *)
-From MS Require Import Containers.Model Containers.Spec.
+(* C13 -- lists and maps are shared by reference and their operations match their model:
+   after any sequence of list / map operations the contents observed equal those of a mathematical
+   sequence / finite map subjected to the same operations; every alias sees every update, a clone is
+   independent of its original, an out-of-range index or removal stops the program with a failure.
+   Pinned statements only; proofs live in Containers/Proofs.v.
+   Model.v: impl-model of the interpreter's container heap (locations, Vec / HashMap contents, variables
+   holding locations) with the index arithmetic and failure classes of the Rust arms.
+   Spec.v: identities -> sequences / finite maps (order of a map not observable). *)
+From MS Require Import Containers.Model Containers.Spec Containers.Proofs.
 
-Example C13_smoke :
-  run false [NewVec 0 [OLit (VInt 1)]; Alias 1 0; Push 0 (OLit (VInt 2)); Print 1]
-  = ([ObsVal (OList [OInt 1; OInt 2])], None).
-Proof. vm_compute. reflexivity. Qed.
+(* FULL STATEMENT: for ALL histories h (no bound on length, number of containers or aliases) on which the
+   specification is defined -- the history is a well-typed program, nesting stays within the rendering
+   fuel, op= stays within i32 -- the impl-model prints the same observations (keys / values / pairs as
+   bags: HashMap order) and ends the same way (runs to the end / stops with a failure at the same operation). *)
+Check containers_refine : forall h : list cop, defined (snd (spec_run h)) -> refines (run false h) (spec_run h).
+Theorem C13_containers_refine : forall h : list cop, defined (snd (spec_run h)) -> refines (run false h) (spec_run h).
+Proof. exact containers_refine. Qed.
+Print Assumptions C13_containers_refine.
+
+(* an out-of-range index (read, op=, write, string concatenation of elements, element in a list literal,
+   removal) is a failure, never a value -- in the state of ANY history, pre-fix behaviour included
+   (where an out-of-range removal was a Rust panic) *)
+Check out_of_range_fails : forall legacy st v l xs i,
+  get_vec st v = Ok (l, xs) -> in_i32 i = true -> in_range xs i = false ->
+  step legacy st (IndexRead v i) = Fail Err /\
+  (forall op y, step legacy st (OpAssign v i op y) = Fail Err) /\
+  (forall x, exists f, step legacy st (IndexWrite v i x) = Fail f) /\
+  (forall j, step legacy st (Concat v i j) = Fail Err) /\
+  (forall dst, step legacy st (NewVec dst [OElem v i]) = Fail Err) /\
+  step legacy st (Remove v i) = Fail (if legacy && (0 <=? i)%Z then Panic else Err).
+Theorem C13_out_of_range_fails : forall legacy st v l xs i,
+  get_vec st v = Ok (l, xs) -> in_i32 i = true -> in_range xs i = false ->
+  step legacy st (IndexRead v i) = Fail Err /\
+  (forall op y, step legacy st (OpAssign v i op y) = Fail Err) /\
+  (forall x, exists f, step legacy st (IndexWrite v i x) = Fail f) /\
+  (forall j, step legacy st (Concat v i j) = Fail Err) /\
+  (forall dst, step legacy st (NewVec dst [OElem v i]) = Fail Err) /\
+  step legacy st (Remove v i) = Fail (if legacy && (0 <=? i)%Z then Panic else Err).
+Proof. exact out_of_range_fails. Qed.
+Print Assumptions C13_out_of_range_fails.
+
+(* every alias sees (and makes) every update: if a and b name the same container, using b for a in any
+   operation gives the same observations and the same next state *)
+Check alias_indistinguishable : forall st a b, eget (env st) a = eget (env st) b ->
+  forall legacy c, step legacy st (subst_uses a b c) = step legacy st c.
+Theorem C13_alias_indistinguishable : forall st a b, eget (env st) a = eget (env st) b ->
+  forall legacy c, step legacy st (subst_uses a b c) = step legacy st c.
+Proof. exact alias_indistinguishable. Qed.
+Print Assumptions C13_alias_indistinguishable.
+
+Check alias_binds_same_container : forall legacy st dst src st' os,
+  step legacy st (Alias dst src) = Ok (st', os) ->
+  eget (env st') dst = eget (env st') src /\ hp st' = hp st /\ os = [].
+
+(* a clone is independent of its original: any history that does not operate on the clone leaves the
+   clone's contents as they were, and any history that does not operate on the original leaves the original *)
+Check clone_independent : forall st a c st1 o1, wf st -> step false st (Clone c a) = Ok (st1, o1) ->
+  exists la xs,
+    get_vec st a = Ok (la, xs) /\ eget (env st1) c = Some (next st) /\ la <> next st /\
+    hget (hp st1) (next st) = Some (CVec xs) /\ hget (hp st1) la = Some (CVec xs) /\
+    (forall h st2, untouched (next st) st1 h -> exec st1 h = Some st2 -> hget (hp st2) (next st) = Some (CVec xs)) /\
+    (forall h st2, untouched la st1 h -> exec st1 h = Some st2 -> hget (hp st2) la = Some (CVec xs)).
+Theorem C13_clone_independent : forall st a c st1 o1, wf st -> step false st (Clone c a) = Ok (st1, o1) ->
+  exists la xs,
+    get_vec st a = Ok (la, xs) /\ eget (env st1) c = Some (next st) /\ la <> next st /\
+    hget (hp st1) (next st) = Some (CVec xs) /\ hget (hp st1) la = Some (CVec xs) /\
+    (forall h st2, untouched (next st) st1 h -> exec st1 h = Some st2 -> hget (hp st2) (next st) = Some (CVec xs)) /\
+    (forall h st2, untouched la st1 h -> exec st1 h = Some st2 -> hget (hp st2) la = Some (CVec xs)).
+Proof. exact clone_independent. Qed.
+Print Assumptions C13_clone_independent.
+
+(* the state of every history is well formed (the hypothesis of C13_clone_independent) *)
+Check step_wf : forall st c st' os, wf st -> step false st c = Ok (st', os) -> wf st' /\ (next st <= next st')%N.
+Check wf0 : wf st0.
+
+(* the specification's equality of values is equality of what they denote *)
+Check oval_eqb_eq : forall a b, oval_eqb a b = true <-> a = b.
+
+(* FINDINGS: the faithful model of the tree before fixes/c13-*.diff (legacy = true) REFUTES the property
+   (repaired in /repo by abf7f13, 2873190, 74b8087, afee80a; the theorems above are about the repaired behaviour) *)
+Check join_legacy_refuted : exists h, defined (snd (spec_run h)) /\ ~ refines_stops (run true h) (spec_run h).
+Check join_self_legacy_refuted : exists h, defined (snd (spec_run h)) /\ ~ refines_stops (run true h) (spec_run h).
+Check map_empty_legacy_refuted : exists h, defined (snd (spec_run h)) /\ ~ refines_stops (run true h) (spec_run h).
+Check filter_empty_legacy_refuted : exists h, defined (snd (spec_run h)) /\ ~ refines_stops (run true h) (spec_run h).
+Check remove_legacy_panics :
+  run true [NewVec 0 [OLit (VInt 1)]; Remove 0 1] = ([], Some Panic) /\
+  run false [NewVec 0 [OLit (VInt 1)]; Remove 0 1] = ([], Some Err) /\
+  spec_run [NewVec 0 [OLit (VInt 1)]; Remove 0 1] = ([], Some Err).
+
+(* non-vacuity: a history with an alias, a clone, a nested list, a map, bags and a final out-of-range read is
+   inside the theorem's domain; the alias sees the push, the clone does not, the failure ends the run *)
+Example C13_nonvacuous :
+  let h := [NewVec 0 [OLit (VInt 1)]; Alias 1 0; Clone 2 0; Push 0 (OLit (VInt 2)); Print 1; Print 2;
+            NewVec 3 [OVar 0; OVar 2]; Print 3; Join 4 0 0; Print 1;
+            MapLit 5 [(KStr [97], OLit (VInt 1)); (KStr [98], OVar 0)]; MapSet 5 (KStr [97]) (OLit VNil);
+            Keys 5; Pairs 5; MapGet 5 (KStr [122]); IndexRead 2 1; Print 0] in
+  spec_run h =
+    ([ObsVal (OList [OInt 1; OInt 2]); ObsVal (OList [OInt 1]);
+      ObsVal (OList [OList [OInt 1; OInt 2]; OList [OInt 1]]); ObsVal (OList [OInt 1; OInt 2; OInt 1; OInt 2]);
+      ObsBag [OStr [97]; OStr [98]];
+      ObsBag [OList [OStr [97]; ONil]; OList [OStr [98]; OList [OInt 1; OInt 2; OInt 1; OInt 2]]];
+      ObsVal ONil], Some Err)
+  /\ defined (snd (spec_run h)) /\ snd (run false h) = Some Err /\ length (fst (run false h)) = 7%nat.
+Proof. vm_compute. repeat split. Qed.
